@@ -204,6 +204,9 @@ func verifLiveWorkersOnce() (int, string) {
 		if !strings.Contains(g, "trzsz-go/trzsz.") {
 			continue
 		}
+		if verifLiveAllowed != "" && strings.Contains(g, verifLiveAllowed) {
+			continue
+		}
 		if strings.Contains(g, "verifLiveWorkers") || strings.Contains(g, "verifQuiesce") || strings.Contains(g, "testing.tRunner") || strings.Contains(g, "trzsz.verif") {
 			continue
 		}
@@ -223,6 +226,13 @@ func verifLiveWorkersOnce() (int, string) {
 }
 
 func verifLiveThreads() int { n, _ := verifLiveWorkers(); return n }
+
+func verifAssertNoLiveThreadsExcept(label string, allowed string) {
+	verifLiveAllowed = allowed
+	verifAssertNoLiveThreads(label)
+}
+
+var verifLiveAllowed string
 
 func verifAssertNoLiveThreads(label string) {
 	if n, where := verifLiveWorkers(); n > 0 {
